@@ -117,6 +117,19 @@ def probe_formatchecker(fc):
     return out
 
 
+def expected_typechecker(parent_vec, changes):
+    """Model of a derived TypeChecker's probe vector: the parent's, except for the changed names
+    (changes: name -> function, or None for a removed name)."""
+    out = list(parent_vec)
+    i = 0
+    for t in TYPE_NAMES:
+        for v in TYPE_VALUES:
+            if t in changes:
+                out[i] = "undefined" if changes[t] is None else bool(changes[t](None, v))
+            i += 1
+    return out
+
+
 class World(object):
     """The pool of objects created so far, each with the probe vector recorded at its creation."""
 
@@ -147,7 +160,7 @@ class World(object):
 
 class C16(Prop):
     ID = "C16"
-    QUICK = 150
+    QUICK = 140
     THOROUGH = 4000
     RULE = ("case = history of 2-14 derivation operations starting from the four draft classes, their type checkers "
             "and format checkers: TypeChecker.redefine / redefine_many / remove (incl. unknown names), "
@@ -219,20 +232,36 @@ class C16(Prop):
             res.labels.append("op:" + op)
             desc = "step %d %s(%s)" % (n, op, name)
             try:
-                if op == "redefine":
+                if op in ("redefine", "redefine_many", "remove"):
                     tc = w.pick("tc", on)
-                    w.add("tc", tc.redefine(name, _tf(fl)), desc)
-                    parents[id(tc)] = parents.get(id(tc), 0) + 1
-                elif op == "redefine_many":
-                    tc = w.pick("tc", on)
-                    w.add("tc", tc.redefine_many({name: _tf(fl), "custom": _tf(fl + 1)}), desc)
-                    parents[id(tc)] = parents.get(id(tc), 0) + 1
-                elif op == "remove":
-                    tc = w.pick("tc", on)
-                    try:
-                        w.add("tc", tc.remove(name), desc)
-                    except impl.exceptions.UndefinedTypeCheck:
-                        res.labels.append("remove-unknown")
+                    pvec = [o[3] for o in w.objs if o[1] is tc][0]
+                    # the parent is used first (a checker that has already answered questions is the normal case)
+                    probe_typechecker(tc)
+                    if op == "redefine":
+                        changes = {name: _tf(fl)}
+                        new = tc.redefine(name, changes[name])
+                    elif op == "redefine_many":
+                        changes = {name: _tf(fl), "custom": _tf(fl + 1)}
+                        new = tc.redefine_many(dict(changes))
+                    else:
+                        changes = {name: None}
+                        try:
+                            new = tc.remove(name)
+                        except impl.exceptions.UndefinedTypeCheck:
+                            res.labels.append("remove-unknown")
+                            if "undefined" not in pvec[TYPE_NAMES.index(name) * len(TYPE_VALUES):][:1]:
+                                res.fail(("remove-raises-for-known-type",), desc)
+                            new = None
+                    if new is not None:
+                        w.add("tc", new, desc)
+                        want = expected_typechecker(pvec, changes)
+                        got = probe_typechecker(new)
+                        if got != want:
+                            idx = [i for i, (a, b) in enumerate(zip(got, want)) if a != b][:3]
+                            res.fail(("derived-typechecker-differs-from-model", op),
+                                     "%s: probe indices %r (type %r): got %r, model %r" % (
+                                         desc, idx, TYPE_NAMES[idx[0] // len(TYPE_VALUES)], got[idx[0]], want[idx[0]]))
+                        parents[id(tc)] = parents.get(id(tc), 0) + 1
                 elif op == "extend_none":
                     c = w.pick("cls", on)
                     e = w.add("cls", V.extend(c), desc)
